@@ -128,7 +128,7 @@ static const KindInfo kKinds[NKINDS] = {
     {"w=move(v)", 0},        {"v.swap(w)", 0},       {"swap(v,w)", 0},       {"v=v", 0},
     {"ctor_default", 0},     {"ctor_reserve", 1},    {"ctor_n", 1},          {"ctor_n_val", 1},
     {"ctor_range", 1},       {"ctor_sized_range", 1}, {"ctor_ilist", 1},     {"ctor_copy", 0},
-    {"ctor_move", 0},        {"ctor_copy_w", 0},     {"ctor_move_w", 0},     {"insert_alias_front", 1},
+    {"ctor_move", 0},        {"ctor_copy_w", 0},     {"ctor_move_w", 0},     {"insert_alias_back", 1},
 };
 
 struct Op {
@@ -185,7 +185,6 @@ static bool parse_hist(const std::string& s, Hist& out) {
   return true;
 }
 
-static const int kIlistLens[] = {0, 1, 2, 3, 5};
 
 // ------------------------------------------------------------------------------------------------
 // what the current thread is executing (for the hang watchdog and the sanitizer death callback)
@@ -247,6 +246,7 @@ struct Tier {
   int depth;
   std::vector<int> args2, args4; // argument sets for capacity 2 / 4
   std::vector<int> small2, small4; // counts used by the two-argument insert forms
+  std::vector<int> ilens; // initializer_list lengths
 };
 
 struct ConfigResult {
@@ -257,6 +257,7 @@ struct ConfigResult {
   struct V {
     std::string msg, replay;
     size_t len;
+    std::string base; // message without the "(history already contains ...)" prefix
   };
   std::vector<V> violations;
   uint64_t diag_use_nonlive = 0;
@@ -265,6 +266,7 @@ struct ConfigResult {
   std::string diag_heap_first;
   uint64_t states = 0, tainted_states = 0;
   std::vector<uint64_t> level_states;
+  std::string level_text;
   bool aborted = false;
 };
 
@@ -1022,7 +1024,7 @@ struct Runner {
     add(CLEAR);
     for (int k : {GROW_N, GROW_NVAL, GROW_RANGE, GROW_GEN})
       for (int n : N) add(k, n);
-    for (int n : kIlistLens) add(GROW_ILIST, n);
+    for (int n : t.ilens) add(GROW_ILIST, n);
     for (int k : {GTAL, GTAL_VAL, RESIZE, RESIZE_VAL, RESERVE})
       for (int n : N) add(k, n);
     add(SHRINK);
@@ -1038,24 +1040,24 @@ struct Runner {
     for (int p : P)
       for (int n : NS) add(INSERT_RANGE, p, n);
     for (int p : P)
-      for (int n : kIlistLens) add(INSERT_ILIST, p, n);
+      for (int n : t.ilens) add(INSERT_ILIST, p, n);
     for (int k : {ASSIGN_NVAL, ASSIGN_RANGE})
       for (int n : N) add(k, n);
     for (int k : {COPY_V_W, COPY_W_V, MOVE_V_W, MOVE_W_V, SWAP, SWAP_FREE, SELF_ASSIGN, CT_DEFAULT}) add(k);
     for (int k : {CT_RESERVE, CT_N, CT_NVAL, CT_RANGE, CT_SIZED_RANGE})
       for (int n : N) add(k, n);
-    for (int n : kIlistLens) add(CT_ILIST, n);
+    for (int n : t.ilens) add(CT_ILIST, n);
     for (int k : {CT_COPY, CT_MOVE, CT_COPY_W, CT_MOVE_W}) add(k);
     if (sv)
       for (int p : P) add(INSERT_ALIAS, p);
   }
 
-  void add_violation(const std::string& msg, const Err& e, const Hist& h, const Op* op) {
+  void add_violation(const std::string& msg, const Err& e, const Hist& h, const Op* op, const std::string& base = "") {
     size_t len = h.size() + (op ? 1 : 0);
     for (auto& v : res.violations)
       if (v.msg == msg) return;
     std::string replay = "config " + cfg_text(cfg_id) + "\nops " + hist_text(h, op) + "\ndetail " + e.detail;
-    res.violations.push_back({msg, replay, len});
+    res.violations.push_back({msg, replay, len, base.empty() ? msg : base});
   }
 
   struct StateRec {
@@ -1107,9 +1109,11 @@ struct Runner {
               res.samples.push_back("{\"config\":\"" + cfg_text(cfg_id) + "\",\"ops\":\"" + hist_text(s.hist, &op) + "\"}");
           }
           const char* pre = s.tainted ? "(history already contains a lifetime violation) " : "";
-          if (o.pos.bad()) add_violation(std::string(pre) + kKinds[op.k].name + ": " + o.pos.cls, o.pos, s.hist, &op);
+          if (o.pos.bad())
+            add_violation(std::string(pre) + kKinds[op.k].name + ": " + o.pos.cls, o.pos, s.hist, &op, std::string(kKinds[op.k].name) + ": " + o.pos.cls);
           if (o.content.bad()) {
-            add_violation(std::string(pre) + kKinds[op.k].name + ": " + o.content.cls, o.content, s.hist, &op);
+            add_violation(std::string(pre) + kKinds[op.k].name + ": " + o.content.cls, o.content, s.hist, &op,
+                          std::string(kKinds[op.k].name) + ": " + o.content.cls);
             continue; // dead end
           }
           if (o.life.bad()) add_violation(std::string(kKinds[op.k].name) + ": " + o.life.cls, o.life, s.hist, &op);
@@ -1134,6 +1138,8 @@ struct Runner {
       cur.swap(next);
     }
     res.states += seen.size();
+    if (!res.level_text.empty()) res.level_text += " + ";
+    for (size_t l = 0; l < res.level_states.size(); l++) res.level_text += (l ? "/" : "") + std::to_string(res.level_states[l]);
     throw_sizes_.clear();
   }
 
@@ -1241,8 +1247,10 @@ int main(int argc, char** argv) {
   // Argument sets: {0,1,2,3} plus boundary-1/boundary/boundary+1 for the bucket boundaries of a
   // default-constructed vector (first bucket F = kDefaultCapacity/2; buckets end at F, 2F, 4F, 8F).
   std::vector<Tier> passes;
-  auto add_pass = [&](int depth, std::vector<int> a2, std::vector<int> a4, std::vector<int> s2, std::vector<int> s4) {
+  auto add_pass = [&](int depth, std::vector<int> a2, std::vector<int> a4, std::vector<int> s2, std::vector<int> s4,
+                      std::vector<int> il = {0, 1, 2, 3, 5}) {
     Tier t;
+    t.ilens = il;
     t.depth = depth;
     t.args2 = a2;
     t.args4 = a4;
@@ -1255,8 +1263,8 @@ int main(int argc, char** argv) {
     add_pass(depth_override ? depth_override : 3, args_override, args_override, small_override.empty() ? args_override : small_override,
              small_override.empty() ? args_override : small_override);
   } else if (tier == "thorough") {
-    add_pass(3, A9, A9, A9, A9);
-    add_pass(4, {0, 1, 2, 3}, {0, 1, 2, 3}, {0, 1, 2}, {0, 1, 2});
+    add_pass(3, A9, A9, {0, 1, 2, 3}, {0, 1, 2, 3});
+    add_pass(4, {0, 1, 3}, {0, 1, 3}, {0, 1}, {0, 1}, {0, 1, 3});
   } else {
     add_pass(depth_override ? depth_override : 3, A6, A6, {0, 1, 2, 3}, {0, 1, 2, 3});
   }
@@ -1372,6 +1380,7 @@ int main(int argc, char** argv) {
     std::string msg, replay;
     size_t len;
     int cfg;
+    std::string base;
   };
   std::vector<MV> viols;
   std::string levels;
@@ -1399,20 +1408,25 @@ int main(int argc, char** argv) {
             m.cfg = id;
           }
         }
-      if (!found) viols.push_back({v.msg, v.replay, v.len, id});
+      if (!found) viols.push_back({v.msg, v.replay, v.len, id, v.base});
     }
-    if (id == todo.front()) {
-      for (size_t l = 0; l < r.level_states.size(); l++) levels += (l ? "/" : "") + std::to_string(r.level_states[l]);
-    }
+    if (id == todo.front()) levels = r.level_text;
   }
   std::stable_sort(viols.begin(), viols.end(), [](const MV& a, const MV& b) { return a.len < b.len; });
-  for (auto& v : viols) report.violation(v.msg, v.replay);
+  for (auto& v : viols) {
+    // a finding repeated behind an earlier lifetime violation adds nothing when it also occurs on a clean history
+    bool redundant = false;
+    if (v.base != v.msg)
+      for (auto& o : viols)
+        if (o.msg == v.base) redundant = true;
+    if (!redundant) report.violation(v.msg, v.replay);
+  }
 
   std::string pass_text;
   for (size_t i = 0; i < passes.size(); i++)
     pass_text += std::string(i ? " + " : "") + "[depth " + std::to_string(passes[i].depth) + ", size arguments cap2 " + ints(passes[i].args2) +
         " cap4 " + ints(passes[i].args4) + ", counts of the two-argument insert forms cap2 " + ints(passes[i].small2) + " cap4 " +
-        ints(passes[i].small4) + "]";
+        ints(passes[i].small4) + ", initializer_list lengths " + ints(passes[i].ilens) + "]";
   report.rule =
       "non-trivial = history during which v or w held elements beyond its first bucket (size > firstBucketLen_), i.e. the "
       "sequence crossed a bucket boundary; every (merged state, operation) pair executed is a distinct history";
@@ -1423,7 +1437,7 @@ int main(int argc, char** argv) {
       "shrink_to_fit, erase(pos), erase(first,last), insert(pos, const& | && | n,val | range | ilist | alias of v.back()), "
       "assign(n,val | range), v=w, w=v, v=move(w), w=move(v), member and free swap, v=v, re-construction of v by ctor(default | "
       "n,ReserveTag | n | n,val | range | size,range(list iterators) | ilist | copy v | move v | copy w | move w)}; passes: " + pass_text +
-      "; ilist lengths {0,1,2,3,5}, positions = those arguments <= size plus size-1 and size; histories reaching the same "
+      "; positions = those arguments <= size plus size-1 and size; histories reaching the same "
       "canonical state (contents of v and w, firstBucketShift_, allocated-bucket mask, shouldDealloc mask, taint) merged; "
       "histories whose last step broke contents/positions are not extended, histories with a lifetime violation are extended "
       "with lifetime checks off; " + std::to_string(todo.size()) +
